@@ -24,7 +24,7 @@ class Dispatch(ObsSpec):
         self.prop = prop
         self.tag = "reentrant-callbacks" if reentrant else "plain-callbacks"
         self.loops = {1: LoopSpec("self._handlers[watch].copy()", self.inv, modifies=[("ghost", "called")] + ([("heap", lambda ex: self.me, f) for f in PROTECTED] if reentrant else []),
-                                  ghost_start=self.gs)}
+                                  ghost_start=self.gs, every_element=True)}
         self.expected_covers = ["loop1.body", "loop1.end", "exit"]
 
     def globals(self):
